@@ -146,6 +146,15 @@ func (r *Reader) Read(p []byte) (int, error) {
 		if r.Pat.Chunk > 0 && m > r.Pat.Chunk {
 			m = r.Pat.Chunk
 		}
+		if r.Pat.First > 0 && r.Off == 0 {
+			m = len(p)
+			if left < m {
+				m = left
+			}
+			if m > r.Pat.First {
+				m = r.Pat.First
+			}
+		}
 		copy(p, r.Data[r.Off:r.Off+m])
 		r.Off += m
 		if r.MixEnd && r.Off == len(r.Data) {
@@ -209,7 +218,12 @@ func (r *Reader) Read(p []byte) (int, error) {
 }
 
 // Pattern is a fixed periodic delivery schedule.
-type Pattern struct{ Chunk, ZeroBefore int }
+// First, when > 0, is the size of the very first segment of the stream (the
+// later ones have Chunk bytes, 0 meaning "all there is").
+type Pattern struct {
+	Chunk, ZeroBefore int
+	First             int
+}
 
 // AfterEndOrEnded reports whether the end error has been returned by some call.
 func (r *Reader) AfterEndOrEnded() bool { return r.ended }
@@ -312,6 +326,7 @@ const (
 	KLimited                     // *io.LimitedReader over the scripted reader (limit far beyond the stream)
 	KOddLen                      // own type over the scripted reader with methods Len() and Size() that mean something else (bytes written so far: 0)
 	KCloser                      // own type with the method set of net.Conn: after Close every Read fails, after a read deadline has passed too
+	KConnFlaky                   // the same connection double, but every SetDeadline/SetReadDeadline call after the first fails (the peer closed meanwhile)
 	KBytesBuffer                 // *bytes.Buffer holding the stream (contiguous by construction)
 	KBytesReader                 // *bytes.Reader
 	KStringsReader               // *strings.Reader
@@ -319,18 +334,21 @@ const (
 )
 
 func (k Kind) String() string {
-	return [...]string{"raw", "bufio16", "bufio4096", "bufio-prefetched", "rich", "limited", "odd-len", "closer", "bytes.Buffer", "bytes.Reader", "strings.Reader"}[k]
+	return [...]string{"raw", "bufio16", "bufio4096", "bufio-prefetched", "rich", "limited", "odd-len", "closer", "conn-deadline-fails", "bytes.Buffer", "bytes.Reader", "strings.Reader"}[k]
 }
 
 // Scripted reports whether the kind draws from the scripted reader (so
 // that fragmentation and injected errors apply); the others hold the whole
 // stream and can only end with io.EOF.
-func (k Kind) Scripted() bool { return k <= KCloser }
+func (k Kind) Scripted() bool { return k <= KConnFlaky }
 
 // AllKinds lists every kind; ScriptedKinds those over the scripted reader.
 func AllKinds() []Kind {
 	ks := make([]Kind, 0, NKinds)
 	for k := KRaw; k < NKinds; k++ {
+		if k == KConnFlaky {
+			continue // behaves like KCloser unless the code under test sets deadlines; used where that is judged (C04, C06)
+		}
 		ks = append(ks, k)
 	}
 	return ks
@@ -355,6 +373,8 @@ func Wrap(k Kind, src *Reader) io.Reader {
 		return &OddLen{src}
 	case KCloser:
 		return &Closer{src: src}
+	case KConnFlaky:
+		return &Closer{src: src, DeadlineFailFrom: 2}
 	case KBytesBuffer:
 		return bytes.NewBuffer(append([]byte(nil), src.Data...))
 	case KBytesReader:
@@ -386,6 +406,21 @@ type Closer struct {
 	Closed   bool
 	Deadline time.Time
 	Written  []byte
+	// DeadlineFailFrom > 0: the n-th and later deadline calls fail
+	DeadlineFailFrom int
+	deadlineCalls    int
+}
+
+// ErrDeadline is what the deadline calls of a flaky connection double return.
+var ErrDeadline = errors.New("env: set deadline: use of closed network connection")
+
+func (r *Closer) setDeadline(t time.Time) error {
+	r.deadlineCalls++
+	if r.DeadlineFailFrom > 0 && r.deadlineCalls >= r.DeadlineFailFrom {
+		return ErrDeadline
+	}
+	r.Deadline = t
+	return nil
 }
 
 // ErrClosed is what a Closer answers after Close.
@@ -425,8 +460,8 @@ func (r *Closer) Write(p []byte) (int, error) {
 func (r *Closer) Close() error                       { r.Closed = true; return nil }
 func (r *Closer) LocalAddr() net.Addr                { return addr{} }
 func (r *Closer) RemoteAddr() net.Addr               { return addr{} }
-func (r *Closer) SetDeadline(t time.Time) error      { r.Deadline = t; return nil }
-func (r *Closer) SetReadDeadline(t time.Time) error  { r.Deadline = t; return nil }
+func (r *Closer) SetDeadline(t time.Time) error      { return r.setDeadline(t) }
+func (r *Closer) SetReadDeadline(t time.Time) error  { return r.setDeadline(t) }
 func (r *Closer) SetWriteDeadline(t time.Time) error { return nil }
 
 var _ net.Conn = (*Closer)(nil)
@@ -462,8 +497,24 @@ const (
 )
 
 func (k ErrKind) String() string {
+	if k >= NErrKinds {
+		if i := int(k - NErrKinds); i < len(ErrTexts) {
+			return fmt.Sprintf("text %q", ErrTexts[i])
+		}
+		return "text"
+	}
 	return [...]string{"plain", "wraps-EOF", "wraps-ErrUnexpectedEOF", "net-temporary", "wraps-ErrShortWrite", "unhashable"}[k]
 }
+
+// ErrTexts: kinds NErrKinds+i are fresh opaque errors whose message is
+// ErrTexts[i] (what transports really say; a decoder may look at the text).
+// The checks append the string constants that are new in the tree under test.
+var ErrTexts = []string{"EOF", "unexpected EOF", "use of closed network connection", "read tcp 192.0.2.1:1883: i/o timeout", "connection reset by peer",
+	"websocket: close 1000 (normal)", "websocket: close 1006 (abnormal closure): unexpected EOF", "tls: bad record MAC", "context canceled"}
+
+type textErr struct{ text string }
+
+func (e *textErr) Error() string { return e.text }
 
 type wrapErr struct {
 	tag   string
@@ -494,6 +545,12 @@ func (e sliceErr) Is(t error) bool {
 
 // NewError returns a fresh injected error of the given kind.
 func NewError(k ErrKind, tag string) error {
+	if k >= NErrKinds {
+		if i := int(k - NErrKinds); i < len(ErrTexts) {
+			return &textErr{ErrTexts[i]}
+		}
+		return &textErr{"injected transport failure " + tag}
+	}
 	switch k {
 	case EWrapsEOF:
 		return &wrapErr{tag, io.EOF}
@@ -522,11 +579,13 @@ const (
 	WRich                       // own type offering WriteString, WriteByte and ReadFrom next to Write
 	WBytesBuffer                // *bytes.Buffer
 	WStringBuilder              // *strings.Builder
+	WStructValue                // a writer whose dynamic type is a struct passed by value (methods on the value receiver)
+	WFuncType                   // a writer whose dynamic type is a func (http.HandlerFunc style adapter)
 	NWKinds
 )
 
 func (k WKind) String() string {
-	return [...]string{"raw", "bufio16", "bufio4096", "rich", "bytes.Buffer", "strings.Builder"}[k]
+	return [...]string{"raw", "bufio16", "bufio4096", "rich", "bytes.Buffer", "strings.Builder", "struct value", "func adapter"}[k]
 }
 
 // RichWriter offers the optional writer interfaces honestly; everything
@@ -556,6 +615,16 @@ func (r *RichWriter) ReadFrom(src io.Reader) (int64, error) {
 		}
 	}
 }
+
+// valueWriter is a struct used as a writer by value.
+type valueWriter struct{ w *Writer }
+
+func (v valueWriter) Write(p []byte) (int, error) { return v.w.Write(p) }
+
+// WriterFunc adapts a function to io.Writer.
+type WriterFunc func(p []byte) (int, error)
+
+func (f WriterFunc) Write(p []byte) (int, error) { return f(p) }
 
 var usedBufio = map[int]*bufio.Writer{}
 
@@ -591,6 +660,10 @@ func WrapWriter(k WKind, w *Writer) (io.Writer, func() []byte) {
 	case WStringBuilder:
 		var b strings.Builder
 		return &b, func() []byte { return []byte(b.String()) }
+	case WStructValue:
+		return valueWriter{w}, func() []byte { return w.Buf }
+	case WFuncType:
+		return WriterFunc(w.Write), func() []byte { return w.Buf }
 	}
 	return w, func() []byte { return w.Buf }
 }
